@@ -9,6 +9,9 @@ byte) and loaded with xknx.secure.keyring.sync_load_keyring:
            empty-element style, comments, missing XML declaration) load identically;
  mutation  every single change of signed content (attribute value / name / presence, element
            name / presence / order / nesting, the Signature itself) raises InvalidSecureConfiguration;
+ weak-sig  a Signature attribute that is missing, empty, truncated to 1..15 octets of the right value
+           or extended by extra octets (zero, arbitrary, the rest of the SHA-256) - alone, with a wrong
+           password and combined with content mutations - raises InvalidSecureConfiguration;
  password  near-miss passwords raise InvalidSecureConfiguration;
  real      the same four on the six real exports (expected content via the writer's own reader).
  long      attribute values beyond 255 octets (>= 37 senders of one group, long project name): the
@@ -21,6 +24,7 @@ import asyncio
 import base64
 import functools
 import gc
+import hashlib
 import os
 import shutil
 import tempfile
@@ -44,14 +48,16 @@ RULE = (
     "devices with optional tool key / passwords / sequence number; optional backbone; project names and "
     "passwords with XML-special and non-ASCII characters) written by the independent writer; per project: "
     "1 load compared field by field, every single-aspect unsigned variant, 10-24 generated single mutations "
-    "of signed content plus one mutation of every kind on a fixed target, 4 near-miss passwords; plus the six "
+    "of signed content plus one mutation of every kind on a fixed target, all 20 weakened Signature forms (removed, "
+    "empty, truncated to 1..15 octets, 3 extensions) alone, 6 of them with a wrong password and one per content "
+    "mutation (real exports: every weakening x every mutation kind), 4 near-miss passwords; plus the six "
     "real ETS exports with every mutation kind applied to every attribute / element once (plus random ones). Non-trivial = a project with >= 1 interface and >= 1 "
     "group key, or any mutation / wrong-password / unsigned-variant case (keyed by the file bytes)."
 )
 ASSUMPTIONS = [
     "the ETS keyring scheme is the one reproduced by the writer; its canonicalisation, key/password encryption and rendering regenerate the stored Signature, all 85 ciphertexts and the exact bytes of the six real ETS exports (self-test)",
     "attribute values and names stay <= 255 UTF-8 octets (one-octet length prefix of the signature scheme); passwords <= 23 octets (ETS: 20 characters) in the 32-octet ETS layout",
-    "mutated files stay well-formed XML; the Signature attribute is only replaced by other valid base64 of different octets",
+    "mutated files stay well-formed XML; the Signature attribute is only replaced by valid base64 (other octets, fewer or more octets, empty) or removed; a keyring without a valid 16-octet signature must be refused with InvalidSecureConfiguration",
     "get_data_secure_senders() is modelled as documented: senders of all interface groups default to 0, devices contribute their SequenceNumber (0 if absent)",
     "PBKDF2 results are memoised around xknx's real hash_keyring_password (pure function) to afford the case count",
 ]
@@ -492,6 +498,42 @@ def mutate(root: kw.El, mut, h: bytes):
     return kind, t
 
 
+WEAKENINGS = ["removed", "empty"] + [f"truncated-{k}" for k in range(1, 16)] + ["extended-zero", "extended-octets", "extended-hash"]
+
+
+def weaken(tree: kw.El, original: kw.El, name: str, h: bytes) -> kw.El:
+    """Copy of `tree` whose Signature attribute is no valid full-length signature any more.
+
+    removed / empty / the first k octets of the ORIGINAL file's signature (k = 1..15) / the original
+    signature followed by extra octets (one zero octet, 16 arbitrary octets, or the remaining 16
+    octets of the SHA-256 the signature is the head of). A keyring without a valid 16-octet signature
+    is not the exported keyring, whatever its content."""
+    t = tree.copy()
+    full = hashlib.sha256(kw.canonical(original, h, True)).digest()
+    sig = full[:16]
+    if name == "removed":
+        t.attrs = [(k, v) for k, v in t.attrs if k != "Signature"]
+        return t
+    if name == "empty":
+        raw = b""
+    elif name.startswith("truncated-"):
+        raw = sig[: int(name.split("-")[1])]
+    elif name == "extended-zero":
+        raw = sig + b"\x00"
+    elif name == "extended-octets":
+        raw = sig + bytes(range(1, 17))
+    elif name == "extended-hash":
+        raw = full
+    else:
+        raise HarnessError(f"unknown weakening {name}")
+    t.set("Signature", base64.b64encode(raw).decode())
+    return t
+
+
+def weak_class(name: str) -> str:
+    return name.split("-")[0]
+
+
 def wrong_passwords(pw: str) -> list[str]:
     out = [pw + "x", pw[:-1], pw.swapcase(), " " + pw, pw + " ", pw.encode("utf-8").decode("latin-1") if not pw.isascii() else pw * 2]
     res: list[str] = []
@@ -555,7 +597,7 @@ def restore_patches(saved) -> None:
 # oracle
 
 
-def check_file(ctx, inp: dict, root: kw.El, password: str, exp: dict, perm: int, mutations: list, label: str, base_style: dict, nontrivial: bool) -> None:
+def check_file(ctx, inp: dict, root: kw.El, password: str, exp: dict, perm: int, mutations: list, label: str, base_style: dict, nontrivial: bool, exhaustive_weak: bool = False) -> None:
     h = kw_hash(password)
     data = kw.render(root, base_style)
     ctx.case(data, nontrivial=nontrivial, cls=[f"{label}:load"] + ([] if nontrivial else [f"{label}:trivial-project"]),
@@ -598,8 +640,42 @@ def check_file(ctx, inp: dict, root: kw.El, password: str, exp: dict, perm: int,
             ctx.fail(f"C31:{label}:mutation-accepted:{kind}", minp, f"mutated file loaded; mutation {kind} {mut}")
         elif res == "exc":
             ctx.fail(f"C31:{label}:mutation-exc:{kind}:{exc_site(val)}", minp, "".join(traceback.format_exception_only(type(val), val)))
+    # weakened signatures (missing / empty / truncated / extended): alone, with a wrong password and
+    # combined with content mutations ("tampered content + weakened signature")
+    wrong = wrong_passwords(password)
+    fixed = [(i, perm + 2 * i + 1, perm // 11 + i, perm // 13 + i) for i in range(len(MUTATION_KINDS))]
+    combos: list[tuple] = [(w, None, password) for w in WEAKENINGS]
+    combos += [(w, None, wrong[0]) for w in ("removed", "empty", "truncated-1", "truncated-8", "truncated-15", "extended-hash")] if wrong else []
+    if exhaustive_weak:
+        combos += [(w, mut, password) for mut in fixed for w in WEAKENINGS]
+    else:
+        combos += [(WEAKENINGS[(perm + 7 * i) % len(WEAKENINGS)], mut, password) for i, mut in enumerate(fixed)]
+    combos += [(WEAKENINGS[(mut[1] + mut[2] + i) % len(WEAKENINGS)], tuple(mut), password) for i, mut in enumerate(mutations[:24])]
+    for wname, mut, pw_used in combos:
+        tree = root
+        if mut is not None:
+            if MUTATION_KINDS[mut[0] % len(MUTATION_KINDS)] == "signature":
+                continue
+            m = mutate(root, mut, h)
+            if m is None:
+                continue
+            tree = m[1]
+        wdata = kw.render(weaken(tree, root, wname, h), base_style)
+        key = wdata + pw_used.encode("utf-8")
+        if key in seen:
+            continue
+        seen.add(key)
+        how = "alone" if mut is None and pw_used == password else "wrong-password" if mut is None else "with-content-mutation"
+        ctx.case(key, nontrivial=True, cls=[f"{label}:weak-signature:{weak_class(wname)}", f"{label}:weak-signature:{how}"])
+        res, val = load(wdata, pw_used)
+        winp = {**inp, "mutations": [list(mut)] if mut is not None else [], "weak": wname}
+        if res == "ok":
+            ctx.fail(f"C31:{label}:weak-signature-accepted:{weak_class(wname)}:{how}", winp,
+                     f"file with Signature {wname} ({how}{'' if mut is None else ' ' + MUTATION_KINDS[mut[0] % len(MUTATION_KINDS)] + ' ' + str(mut)}) loaded")
+        elif res == "exc":
+            ctx.fail(f"C31:{label}:weak-signature-exc:{weak_class(wname)}:{exc_site(val)}", winp, "".join(traceback.format_exception_only(type(val), val)))
     # wrong passwords
-    for w in wrong_passwords(password):
+    for w in wrong:
         ctx.case((data, w), nontrivial=True, cls=f"{label}:wrong-password")
         res, val = load(data, w)
         if res == "ok":
@@ -666,7 +742,7 @@ def check_real(ctx, name: str, perm: int, mutations: list, systematic: bool = Fa
         raise HarnessError(f"{name}: writer does not reproduce the real file")
     exp = expected_from_tree(root, password)
     muts = list(mutations) + (systematic_mutations(root, perm) if systematic else [])
-    check_file(ctx, {"real": name, "perm": perm, "mutations": [list(m) for m in mutations]}, root, password, exp, perm, muts, "real", style, True)
+    check_file(ctx, {"real": name, "perm": perm, "mutations": [list(m) for m in mutations]}, root, password, exp, perm, muts, "real", style, True, exhaustive_weak=True)
 
 
 def systematic_mutations(root: kw.El, perm: int) -> list:
@@ -762,6 +838,7 @@ def run(ctx) -> None:
         restore_patches(saved)
     ctx.notes["real_files"] = len(names)
     ctx.notes["mutation_kinds"] = len(MUTATION_KINDS)
+    ctx.notes["signature_weakenings"] = len(WEAKENINGS)
     ctx.notes["unsigned_variants"] = len(VARIANTS)
 
 
